@@ -27,7 +27,7 @@ func runC11(c *Ctx) {
 			c.Sample(map[string]interface{}{"files": sw.FileMap()})
 		}
 	})
-	c.Finish("generated workspaces as in C05; textDocument/rename with a fresh identifier at every renameable occurrence; the returned "+
+	c.Finish("generated workspaces as in C05 (a third of them after a client settings notification that switches the references option `include the definition` off); textDocument/rename with a fresh identifier at every renameable occurrence; the returned "+
 		"WorkspaceEdit is checked for (1) pairwise disjoint edits, (2) old name under every edit in the client's text, (3) set equality with the "+
 		"reference binder's occurrence class, (4) after applying it: re-parse, isomorphic binding graph, and (sampled) equal diagnostics of a fresh "+
 		"server up to the name. distinct_nontrivial = distinct (file text, occurrence) renamed with a definite expectation", 300)
@@ -100,6 +100,18 @@ func checkC11WS(c *Ctx, sw *ScopeWS, tag string, r *Rng) {
 	}
 	defer ws.Remove()
 	defer srv.Close()
+	// a third of the workspaces run with the find-references option "include the definition" switched off by a client
+	// settings notification (explicitly, or by leaving the key out): rename must not depend on it
+	switch r.Fork(0x636f6e66).Intn(6) {
+	case 0:
+		srv.Notify("workspace/didChangeConfiguration", map[string]interface{}{"settings": map[string]interface{}{"luahelper": map[string]interface{}{"base": map[string]interface{}{"ReferenceIncudeDefine": false, "ReferenceMaxNum": 3000}}}})
+		srv.Fence()
+		c.Count("workspaces_with_reference_include_definition_off", 1)
+	case 1:
+		srv.Notify("workspace/didChangeConfiguration", map[string]interface{}{"settings": map[string]interface{}{}})
+		srv.Fence()
+		c.Count("workspaces_with_reference_include_definition_off", 1)
+	}
 	var baseView map[string][]Diag
 	sampled := false
 	for _, f := range sw.Files {
